@@ -12,7 +12,7 @@ Ops (token grammar; bytes in hex, `-` = empty):
 * `wm <t> (res ..)*`      watermark: the due timers fire as TimerExpired events, in chunks of the batch size; which
                           timer fires when is read from the implementation's output and checked against the model's
                           set of due timers; the response answers the first invocation  → `<events>=><key states> | ..`
-* `ckpt` / `restart [new]`   DKV checkpoint / redeploy from the latest checkpoint                   → `ok`
+* `ckpt` / `restart [new] [<id>]`   DKV checkpoint (ids 1,2,..) / redeploy from the latest or the named retained checkpoint → `ok`
 * `rot` / `wait`             background timing of the LSM: no effect on the map                     → `ok`
 * `prefixfree ..` / `inj ..` / `disjoint ..` / `decode ..`  theorem instances evaluated on the real encoders → `ok`
 -/
@@ -25,7 +25,8 @@ structure St where
   ops : OpState := {}
   /-- timers in the DKV (mechanism bookkeeping for `wm`; what fires when is C10's subject) -/
   pending : List (Bytes × Nat) := []
-  savedPending : List (Bytes × Nat) := []
+  savedPending : List (Nat × List (Bytes × Nat)) := []
+  ckptN : Nat := 0
   wm : Option Nat := none
 
 def showEntries (es : List (Bytes × Bytes)) : String :=
@@ -144,11 +145,19 @@ def step (st : St) (line : List String) : St × String :=
         let rest := st.pending.filter (fun p => !(p.2 ≤ T))
         ({ st with ops := ops', wm := some T, pending := addPending rest res }, joinWith " | " outs)
     else (st, "bad-op")
-  | ["ckpt"] => ({ st with ops := (opStep st.kgc st.ops .ckpt).1, savedPending := st.pending }, "ok")
-  | "restart" :: _ =>
-    match st.ops.saved with
+  | ["ckpt"] =>
+    let id := st.ckptN + 1
+    ({ st with ops := (opStep st.kgc st.ops (.ckpt id)).1, savedPending := (id, st.pending) :: st.savedPending, ckptN := id }, "ok")
+  | "restart" :: args =>
+    -- `restart [new] [<id>]`: the latest retained checkpoint, or the named retained one
+    let id := match args.filter (· ≠ "new") with
+      | i :: _ => natOr i
+      | [] => (st.ops.saved.head?.map (·.1)).getD 0
+    match lookupCkpt st.ops.saved id with
     | none => (st, "no-checkpoint")
-    | some _ => ({ st with ops := (opStep st.kgc st.ops .restore).1, pending := st.savedPending, wm := none }, "ok")
+    | some _ =>
+      ({ st with ops := (opStep st.kgc st.ops (.restore id)).1, pending := (lookupCkpt st.savedPending id).getD [],
+                 savedPending := keepOnly st.savedPending id, wm := none }, "ok")
   | ["rot"] => (st, "ok")
   | ["wait"] => (st, "ok")
   | ["prefixfree", _, _, _, _] => (st, "ok")      -- C03.subject_prefix_free
